@@ -16,7 +16,7 @@ PROVISIONAL = []          # provisional known-finding entries (same format as kn
 C18_INVARIANTS = {"InvS_Range": "decoded stereo predictors leave the range the synthesis assumes (table span / 16-bit state)",
                   "InvQ": "the value silk_stereo_quant_pred writes back is not what the decoder reconstructs from the indices, or the indices are not codable",
                   "InvS_QuantFixpoint": "quantising a reconstructed predictor pair does not give back the same values",
-                  "InvL_Tables": "LTP codebook / scale tables leave their format (Q7 in 8 bits, Q14 in 16 bits, proper inverse CDFs, attenuating scales)"}
+                  "InvL_Tables": "LTP codebook / scale tables leave their format (Q7 in 8 bits, Q14 in 16 bits, proper inverse CDFs, attenuating scales) or the max-gain arithmetic leaves 32 bits"}
 
 OBS = dict(wc=0, wc_claim=0, wc_voiced=0, wc_width=0, wc_midonly=0, wc_lost=0, wc_mono=0, wc_hybrid=0, wc_multiframe=0, wc_first_stereo_after_mono=0,
            wc_ltpscale_nonzero=0, wc_reduced_width=0, enc_sum_log_gain_max_Q7=0, ms_wrap=0, lq_per=[0, 0, 0], lq_clamped=0)
